@@ -179,6 +179,50 @@ func main() {
 		})
 	}
 
+	// getOpIDs / mergePaths: both compare an operation id with "" (and so ignore id-less operations)
+	cmpIDEmpty := func(name string) bool {
+		fd := root.fn(name)
+		found := false
+		if fd == nil {
+			return false
+		}
+		ast.Inspect(fd.Body, func(n ast.Node) bool {
+			if be, ok := n.(*ast.BinaryExpr); ok && (be.Op == token.EQL || be.Op == token.NEQ) {
+				isID := func(e ast.Expr) bool { s, ok := e.(*ast.SelectorExpr); return ok && s.Sel.Name == "ID" }
+				isEmpty := func(e ast.Expr) bool { l, ok := e.(*ast.BasicLit); return ok && l.Value == `""` }
+				if (isID(be.X) && isEmpty(be.Y)) || (isID(be.Y) && isEmpty(be.X)) {
+					found = true
+				}
+			}
+			return true
+		})
+		return found
+	}
+	mixinSkipsEmptyIDs := cmpIDEmpty("getOpIDs") && cmpIDEmpty("mergePaths")
+	// mergeSwaggerProps: `if primary.ExternalDocs == nil {..} else if m.ExternalDocs != nil {..}`
+	mixinExtDocsGuard := false
+	if fd := root.fn("mergeSwaggerProps"); fd != nil {
+		selIs := func(e ast.Expr, field string) bool { s, ok := e.(*ast.SelectorExpr); return ok && s.Sel.Name == field }
+		ast.Inspect(fd.Body, func(n ast.Node) bool {
+			ifs, ok := n.(*ast.IfStmt)
+			if !ok {
+				return true
+			}
+			be, ok := ifs.Cond.(*ast.BinaryExpr)
+			if !ok || be.Op != token.EQL || !selIs(be.X, "ExternalDocs") {
+				return true
+			}
+			if els, ok := ifs.Else.(*ast.IfStmt); ok {
+				if b2, ok := els.Cond.(*ast.BinaryExpr); ok && b2.Op == token.NEQ && selIs(b2.X, "ExternalDocs") {
+					if id, ok := b2.Y.(*ast.Ident); ok && id.Name == "nil" {
+						mixinExtDocsGuard = true
+					}
+				}
+			}
+			return true
+		})
+	}
+
 	var b bytes.Buffer
 	b.WriteString("import Verif.Model.Facts\n")
 	b.WriteString("-- GENERATED by /verif/harness/cmd/extract from /repo's working tree; do not edit.\n\n")
@@ -191,6 +235,8 @@ func main() {
 	}
 	fmt.Fprintf(&b, "  analyzerMethods := [%s]\n", strings.Join(pairs, ", "))
 	fmt.Fprintf(&b, "  mixinMethods := %s\n", leanStrList(mixinMethods))
+	fmt.Fprintf(&b, "  mixinSkipsEmptyIDs := %v\n", mixinSkipsEmptyIDs)
+	fmt.Fprintf(&b, "  mixinExtDocsGuard := %v\n", mixinExtDocsGuard)
 	fmt.Fprintf(&b, "  paramsForMethods := %s\n", leanStrList(paramsForMethods))
 	_ = sort.Strings
 
